@@ -72,10 +72,14 @@ Proof.
       * eapply IH; [exact H5| |exact He]. right. unfold w5. rewrite wc_wsetc_same. exact Ho4.
       * match type of He with (if ?b then _ else _) = _ => destruct b end;
           [|inversion He; subst; exact H5].
-        eapply Inv_trigger; [exact H5| |exact He]. right; right; eauto.
+        eapply Inv_trigger; [| |exact He]; [|right; right; eauto].
+        apply good_ghost; [apply good_T|discriminate|discriminate|discriminate|exact H5].
     + eapply (b_close _ (block (S f))); [exact H4|left; reflexivity|exact He].
     + inversion He; subst; exact H4.
 Qed.
+
+Lemma close_ok0 : forall fuel cid e w r w', Inv T w -> el_close fuel cid e w = (r, w') -> Inv T w'.
+Proof. intros. eapply (b_close _ (block fuel)); [exact H|left; reflexivity|exact H0]. Qed.
 
 (* ------------------------------------------------------------------ *)
 (* el.open: the reply loop, named *)
@@ -109,48 +113,40 @@ Fixpoint open_loop (k : nat) (data : list Z) (w : world) : bool * world :=
   end.
 End OpenLoop.
 
-Definition TX := Rel [] true None PT.
-
-Lemma Inv_setc_dataX : forall w cid c',
-  Inv TX w -> same_static (wc w cid) c' -> Inv TX (wsetc w cid c').
-Proof.
-  intros w cid c' H Hs. eapply Inv_wsetc; [exact H|].
-  intros c Hc. eapply Rel_state; [exact Hc| |auto].
-  intros HR. apply RS_setc_data; auto.
-Qed.
-
 Lemma open_loop_ok : forall cid k data w ok w',
-  Inv TX w -> open_loop cid k data w = (ok, w') -> Inv TX w'.
+  Inv (Rel [] false None (Popen cid)) w -> open_loop cid k data w = (ok, w') ->
+  Inv (Rel [] false (if ok then None else Some cid) PT) w'.
 Proof.
   intros cid. induction k as [|k IH]; intros data w ok w' H He; cbn [open_loop] in He.
   { inversion He; subst. eapply Inv_any_desync; exact H. }
   assert (Hwr : forall src kk ww, sys_wr cid (c_fd (wc w cid)) src true w = (kk, ww) ->
-            match kk with KNone => AnyInv ww | _ => Inv TX ww end).
+            match kk with
+            | KNone => AnyInv ww
+            | KOk _ _ => Inv (Rel [] false None (Popen cid)) ww
+            | KErr e => if is_eagain e then Inv (Rel [] false None (Popen cid)) ww
+                        else Inv (Rel [] false (Some cid) PT) ww
+            end).
   { intros src kk ww Hs.
-    pose proof (Inv_sys_wr [] true PT (pstable_PT []) _ _ _ _ _ _ _ H Hs) as H1.
+    pose proof (Inv_sys_wr [] false (Popen cid) (pstable_Popen [] cid) _ _ _ _ _ _ _ H Hs) as H1.
     destruct kk as [n extra|e|]; auto.
-    destruct (is_eagain e); auto.
-    eapply Inv_weaken; [exact H1|]. intros c _ Hc. eapply RelFail_exempt; exact Hc. }
+    destruct (is_eagain e); auto. apply Inv_fail_open; exact H1. }
   destruct data as [|b data].
   - destruct (sys_wr cid (c_fd (wc w cid)) [] true w) as [kk ww] eqn:Hs.
     specialize (Hwr _ _ _ Hs). destruct kk as [n extra|e|].
-    + inversion He; subst; exact Hwr.
-    + destruct (is_eagain e); inversion He; subst; exact Hwr.
+    + inversion He; subst. exact (Rel_P_drop _ _ _ _ _ Hwr).
+    + destruct (is_eagain e); inversion He; subst; [exact (Rel_P_drop _ _ _ _ _ Hwr)|exact Hwr].
     + inversion He; subst. apply Any_Inv; exact Hwr.
   - destruct (sys_wr cid (c_fd (wc w cid)) (b :: data) true w) as [kk ww] eqn:Hs.
     specialize (Hwr _ _ _ Hs). destruct kk as [n extra|e|].
-    + destruct (zdrop n (b :: data)) eqn:Hz; [inversion He; subst; exact Hwr|].
+    + destruct (zdrop n (b :: data)) eqn:Hz; [inversion He; subst; exact (Rel_P_drop _ _ _ _ _ Hwr)|].
       eapply IH; [exact Hwr|exact He].
     + destruct (is_eagain e); inversion He; subst; [|exact Hwr].
-      apply Inv_setc_dataX; [exact Hwr|ss].
+      apply Inv_setc_data0; [exact (Rel_P_drop _ _ _ _ _ Hwr)|ss].
     + inversion He; subst. apply Any_Inv; exact Hwr.
 Qed.
 
-Lemma el_open_eq : forall fuel cid w,
-  el_open fuel cid w =
-  let c := wc w cid in
-  let w1 := wsetc w cid (c_set_opened c true) in
-  let w2 := emit (obs "cb" [ASym "open"; AInt cid]) w1 in
+(* the part of el.open after the connection has been marked open and announced *)
+Definition open_rest (fuel : nat) (cid : Z) (w2 : world) : res * world :=
   let '(act, reply, w3) := handler fuel cid w2 in
   if negb (c_opened (wc w3 cid)) then
     match act with AShutdown => (RShutdown, w3) | _ => (RNil, w3) end
@@ -160,7 +156,7 @@ Lemma el_open_eq : forall fuel cid w,
     | None => (true, w3)
     | Some data =>
       let c3 := wc w3 cid in
-      let w3 := if c_udp c3 then w3 else ghost "openreply" cid [] (ghost "sub" cid data w3) in
+      let w3 := if c_udp c3 then w3 else ghost "sub" cid data w3 in
       if c_udp c3 && negb (c_remote c3) then
         match sys "sendto" [AInt (c_fd c3); ABytes data; bool_arg false] w3 with
         | (KErr _, w') => (false, w')
@@ -170,8 +166,7 @@ Lemma el_open_eq : forall fuel cid w,
         (true, wsetc w3 cid (c_set_out c3 (c_out c3 ++ data)))
       else open_loop cid (S (List.length (inp w3))) data w3
     end in
-  let w4 := ghost "openreply-end" cid [] w4 in
-  if negb ok then (RErr, w4)
+  if negb ok then el_close fuel cid false w4
   else
     let c4 := wc w4 cid in
     let '(r5, w5) :=
@@ -186,116 +181,49 @@ Lemma el_open_eq : forall fuel cid w,
       | AClose => el_close fuel cid true w5
       | AShutdown => (RShutdown, w5)
       end
-    | r => (r, w5)
+    | _ => el_close fuel cid false w5
     end.
+
+Lemma el_open_eq : forall fuel cid w,
+  el_open fuel cid w =
+  open_rest fuel cid (emit (obs "cb" [ASym "open"; AInt cid]) (wsetc w cid (c_set_opened (wc w cid) true))).
 Proof. reflexivity. Qed.
 
-Lemma Inv_openreply : forall L P cid w,
-  Inv (Rel L false None P) w -> Inv (Rel L true None P) (ghost "openreply" cid [] w).
-Proof.
-  intros L P cid w H. unfold ghost. eapply Inv_emit; [exact H|reflexivity|].
-  intros c _ [E1 [E2 [E3 [E4 E5]]]]. eexists. split; [cbn; rewrite E1; reflexivity|].
-  split; [reflexivity|split; [reflexivity|split; [exact E3|split; [|exact E5]]]].
-  destruct E4 as [E4|[x [Ex _]]]; [left; exact E4|discriminate].
-Qed.
-
-Lemma Inv_openreply_end : forall L x P cid w,
-  Inv (Rel L x None P) w -> Inv (Rel L false None P) (ghost "openreply-end" cid [] w).
-Proof.
-  intros L x P cid w H. unfold ghost. eapply Inv_emit; [exact H|reflexivity|].
-  intros c _ [E1 [E2 [E3 [E4 E5]]]]. eexists. split; [cbn; rewrite E1; reflexivity|].
-  split; [reflexivity|split; [reflexivity|split; [exact E3|split; [|exact E5]]]].
-  destruct E4 as [E4|[y [Ex _]]]; [left; exact E4|discriminate].
-Qed.
-
-(* a state fact that contradicts the invariant makes the rest of the run irrelevant *)
-Lemma Inv_absurd : forall Q Q' w,
-  Inv Q w -> (forall c, Q c (st w) -> False) -> Inv Q' w.
-Proof. intros Q Q' w H Hf. eapply Inv_weaken; [exact H|]. intros c _ Hc. destruct (Hf c Hc). Qed.
-
-(* the part of el.open after the connection has been marked open *)
 Lemma open_rest_ok : forall fuel cid w2 r w',
-  Inv T w2 ->
-  (let '(act, reply, w3) := handler fuel cid w2 in
-   if negb (c_opened (wc w3 cid)) then
-     match act with AShutdown => (RShutdown, w3) | _ => (RNil, w3) end
-   else
-   let '(ok, w4) :=
-     match reply with
-     | None => (true, w3)
-     | Some data =>
-       let c3 := wc w3 cid in
-       let w3 := if c_udp c3 then w3 else ghost "openreply" cid [] (ghost "sub" cid data w3) in
-       if c_udp c3 && negb (c_remote c3) then
-         match sys "sendto" [AInt (c_fd c3); ABytes data; bool_arg false] w3 with
-         | (KErr _, w') => (false, w')
-         | (_, w') => (true, w')
-         end
-       else if (match c_out c3 with [] => false | _ => true end) then
-         (true, wsetc w3 cid (c_set_out c3 (c_out c3 ++ data)))
-       else open_loop cid (S (List.length (inp w3))) data w3
-     end in
-   let w4 := ghost "openreply-end" cid [] w4 in
-   if negb ok then (RErr, w4)
-   else
-     let c4 := wc w4 cid in
-     let '(r5, w5) :=
-       match c_out c4 with
-       | _ :: _ => if l_et (st w4) then (RNil, w4) else epctl "mod" (c_fd c4) true false w4
-       | [] => (RNil, w4)
-       end in
-     match r5 with
-     | RNil =>
-       match act with
-       | ANone => (RNil, w5)
-       | AClose => el_close fuel cid true w5
-       | AShutdown => (RShutdown, w5)
-       end
-     | r => (r, w5)
-     end) = (r, w') ->
-  Inv T w'.
+  Inv T w2 -> open_rest fuel cid w2 = (r, w') -> Inv T w'.
 Proof.
-  intros fuel cid w2 r w' H2 He.
+  intros fuel cid w2 r w' H2 He. unfold open_rest in He.
   destruct (handler fuel cid w2) as [[act reply] w3] eqn:Hh.
   pose proof (b_h _ (block fuel) _ _ _ _ _ H2 Hh) as H3.
   destruct (c_opened (wc w3 cid)) eqn:Ho3; cbn [negb] in He;
     [|destruct act; inversion He; subst; exact H3].
-  (* the reply *)
   match type of He with (let '(_, _) := ?X in _) = _ => destruct X as [ok w4] eqn:Hrep end.
-  assert (H4 : exists x, Inv (Rel [] x None PT) w4).
-  { destruct reply as [data|]; [|inversion Hrep; subst; exists false; exact H3].
+  assert (H4 : Inv (Rel [] false (if ok then None else Some cid) PT) w4).
+  { destruct reply as [data|]; [|inversion Hrep; subst; exact H3].
     cbv zeta in Hrep.
-    destruct (c_udp (wc w3 cid)) eqn:Hud.
-    - destruct (c_remote (wc w3 cid)) eqn:Hrm; cbn [negb andb] in Hrep.
-      + (* a datagram connection with a remote is never open *)
-        exists true. eapply Inv_absurd with (Q' := TX) in H3.
-        * destruct (match c_out (wc w3 cid) with [] => false | _ :: _ => true end).
-          -- inversion Hrep; subst. apply Inv_setc_dataX; [exact H3|ss].
-          -- eapply open_loop_ok; [exact H3|exact Hrep].
-        * intros c [_ [_ [HR _]]]. pose proof (rs_udp _ _ _ HR cid Hud Hrm) as Hx.
-          unfold wc in Ho3. congruence.
-      + exists false.
-        destruct (sys "sendto" [AInt (c_fd (wc w3 cid)); ABytes data; bool_arg false] w3) as [k ww] eqn:Hs.
-        assert (Inv T ww) by (eapply good_sys; [apply good_T| |exact H3|exact Hs]; plain_sys_tac).
-        destruct k; inversion Hrep; subst; assumption.
-    - cbn [andb] in Hrep. exists true.
-      assert (H3x : Inv TX (ghost "openreply" cid [] (ghost "sub" cid data w3))).
-      { apply Inv_openreply. apply good_ghost; [apply good_T|discriminate|discriminate|discriminate|exact H3]. }
-      destruct (match c_out (wc w3 cid) with [] => false | _ :: _ => true end).
-      + inversion Hrep; subst. apply Inv_setc_dataX; [exact H3x|ss].
-      + eapply open_loop_ok; [exact H3x|exact Hrep]. }
-  destruct H4 as [x H4].
-  pose proof (Inv_openreply_end _ _ _ cid _ H4) as H4e. fold T in H4e.
-  set (w4e := ghost "openreply-end" cid [] w4) in *.
-  destruct ok; cbn [negb] in He; [|inversion He; subst; exact H4e].
+    match type of Hrep with context [sys "sendto" _ ?ww] => set (w3' := ww) in * end.
+    assert (H3' : Inv T w3' /\ wc w3' cid = wc w3 cid).
+    { unfold w3'. destruct (c_udp (wc w3 cid)); [auto|]. split.
+      - apply good_ghost; [apply good_T|discriminate|discriminate|discriminate|exact H3].
+      - unfold wc. rewrite st_ghost. reflexivity. }
+    destruct H3' as [H3' Hwc].
+    destruct (c_udp (wc w3 cid) && negb (c_remote (wc w3 cid))).
+    - destruct (sys "sendto" [AInt (c_fd (wc w3 cid)); ABytes data; bool_arg false] w3') as [k ww] eqn:Hs.
+      assert (Inv T ww) by (eapply good_sys; [apply good_T| |exact H3'|exact Hs]; plain_sys_tac).
+      destruct k; inversion Hrep; subst; try assumption. apply Rel_dm_drop; assumption.
+    - destruct (match c_out (wc w3 cid) with [] => false | _ :: _ => true end).
+      + inversion Hrep; subst. apply Inv_setc_data0; [exact H3'|]. rewrite <- Hwc. ss.
+      + eapply open_loop_ok; [|exact Hrep]. apply Inv_assert_open; [exact H3'|]. rewrite Hwc; exact Ho3. }
+  destruct ok; cbn [negb] in He;
+    [|eapply (b_close _ (block fuel)); [exact H4|right; split; reflexivity|exact He]].
   match type of He with (let '(_, _) := ?X in _) = _ => destruct X as [r5 w5] eqn:H5e end.
   assert (H5 : Inv T w5).
-  { destruct (c_out (wc w4e cid)); [inversion H5e; subst; exact H4e|].
-    destruct (l_et (st w4e)); [inversion H5e; subst; exact H4e|].
-    eapply good_epctl; [apply good_T|exact H4e|exact H5e]. }
-  destruct r5; try (inversion He; subst; exact H5).
+  { destruct (c_out (wc w4 cid)); [inversion H5e; subst; exact H4|].
+    destruct (l_et (st w4)); [inversion H5e; subst; exact H4|].
+    eapply good_epctl; [apply good_T|exact H4|exact H5e]. }
+  destruct r5; try (eapply close_ok0; [exact H5|exact He]).
   destruct act; try (inversion He; subst; exact H5).
-  eapply (b_close _ (block fuel)); [exact H5|left; reflexivity|exact He].
+  eapply close_ok0; [exact H5|exact He].
 Qed.
 
 (* ------------------------------------------------------------------ *)
@@ -368,7 +296,7 @@ Proof.
       intros c _ Hc. eapply Rel_state; [exact Hc| |intros; exact I].
       intros HR. destruct Hc as [_ [_ [_ [_ [[P1 _] [P5 P6]]]]]].
       apply RS_register_only; auto. rewrite P5; reflexivity.
-    + rewrite el_open_eq in He. cbv zeta in He.
+    + rewrite el_open_eq in He.
       eapply open_rest_ok; [|exact He].
       apply good_emit; [apply good_T|plain_tac|].
       eapply (Inv_world _ _ w1); [exact H2|reflexivity|reflexivity|].
@@ -491,10 +419,11 @@ Proof.
   intros fuel fd ev w r w' H He. unfold dispatch in He.
   destruct (alookup fd (l_reg (st w))) as [cid|].
   - repeat match type of He with (if ?b then _ else _) = _ => destruct b end;
-      first [eapply process_io_ok; eauto | eapply read_udp_ok; eauto].
+      first [solve [eapply process_io_ok; eauto] | solve [eapply read_udp_ok; eauto]].
   - destruct (alookup fd (l_listeners (st w))) as [udp|].
     + eapply accept_ok; eauto.
-    + eapply good_epctl; [apply good_T|exact H|exact He].
+    + destruct (polopt (st w)); [inversion He; subst; exact H|].
+      eapply good_epctl; [apply good_T|exact H|exact He].
 Qed.
 
 (* ------------------------------------------------------------------ *)
@@ -696,8 +625,16 @@ Proof.
   - eapply Inv_any_desync; exact HP.
 Qed.
 
+Definition pend_step (w : world) (fc : Z * Z) : world :=
+  if c_udp (wc w (snd fc)) then w else
+  emit ("g", [ASym "pending"; AInt (snd fc); AInt (fst fc); AInt (zlen (c_out (wc w (snd fc))))]) w.
+
+Definition poll_head (w : world) : world :=
+  let w := emit ("g", [ASym "count"; AInt (zlen (l_reg (st w))); ABytes []]) w in
+  fold_left pend_step (l_reg (st w)) w.
+
 Lemma polling_cases : forall f w,
-  let w0 := emit ("g", [ASym "count"; AInt (zlen (l_reg (st w))); ABytes []]) w in
+  let w0 := poll_head w in
   exists o w1, pull w0 = (o, w1) /\
    ((o = None /\ polling (S f) w = w1) \/
     (exists evs, o = Some ("wait", evs) /\
@@ -714,7 +651,7 @@ Lemma polling_cases : forall f w,
        end) \/
     (exists l, o = Some l /\ polling (S f) w = desync "expected-wait" w1)).
 Proof.
-  intros f w w0. cbn [polling]. fold w0.
+  intros f w w0. cbn [polling]. change (fold_left _ _ _) with w0.
   destruct (pull w0) as [o w1]. exists o, w1. split; [reflexivity|].
   destruct o as [l|]; [|left; auto]. right.
   destruct l as [ln la].
@@ -732,13 +669,25 @@ Proof.
     destruct ln as [|a ln]; [congruence|reflexivity].
 Qed.
 
+Lemma pend_fold_ok : forall l w, Inv T w -> Inv T (fold_left pend_step l w).
+Proof.
+  induction l as [|fc l IH]; intros w H; [exact H|]. cbn [fold_left]. apply IH.
+  unfold pend_step. destruct (c_udp (wc w (snd fc))); [exact H|].
+  apply good_emit; [apply good_T|plain_tac|exact H].
+Qed.
+
+Lemma poll_head_ok : forall w, Inv T w -> Inv T (poll_head w).
+Proof.
+  intros w H. unfold poll_head. apply pend_fold_ok.
+  apply (good_ghost T "count" (zlen (l_reg (st w))) [] w); try discriminate; auto. apply good_T.
+Qed.
+
 Lemma polling_ok : forall fuel w, Inv T w -> Inv T (polling fuel w).
 Proof.
   induction fuel as [|f IH]; intros w H.
   { cbn. eapply Inv_any_desync; exact H. }
   destruct (polling_cases f w) as [o [w1 [Hp Hc]]].
-  assert (H0 : Inv T (emit ("g", [ASym "count"; AInt (zlen (l_reg (st w))); ABytes []]) w)).
-  { apply (good_ghost T "count" (zlen (l_reg (st w))) [] w); try discriminate; auto. apply good_T. }
+  pose proof (poll_head_ok w H) as H0.
   pose proof (Inv_pull _ (Rel_stable [] false None PT (pstable_PT [])) _ _ _ H0 Hp) as HP.
   destruct Hc as [[-> ->]|[[evs [-> ->]]|[l [-> ->]]]].
   - apply Any_Inv; exact HP.
